@@ -22,6 +22,9 @@ REQUIRED = [
     'cnt_spec', 'size_eq_length', 'normal_nonempty', 'normal_in_range', 'verify_slice_sound', 'verify_int_sound',
     'mirror_normal', 'mirror_spec', 'mirror_involutive', 'overlap_spec', 'overlap_none_spec', 'reverse_spec', 'compose_spec',
     'gen_verify_slice', 'gen_verify_int', 'gen_size', 'gen_mirror', 'gen_overlap', 'gen_reverse', 'gen_reversed_axis_read',
+    # N-d subscripts (Props/C01Nd.lean)
+    'expand_length', 'expand_refused_iff', 'expand_layout', 'expand_no_ellipsis', 'verify_item_sound', 'verify_sub_sound',
+    'read_eq_numpy', 'read_shape', 'read_in_bounds',
 ]
 
 
@@ -38,6 +41,106 @@ def pyrun(f):
         return f()
     except (ValueError, TypeError, ZeroDivisionError, KeyError, IndexError, OverflowError) as e:
         return 'err ' + type(e).__name__
+
+
+# ---------------------------------------------------------------------------- N-d subscripts (verify_subscript)
+
+def nd_cases(rng, tier):
+    """(shape, entries) with entries 'E' | None | int | (a, b, c): tuple subscripts incl. leading / inner / trailing / zero-width /
+    double Ellipsis and too many entries"""
+    out = []
+    for _ in range(400 if tier == 'quick' else 6000):
+        nd = rng.randint(1, 4)
+        shape = [rng.randint(1, 5) for _ in range(nd)]
+        k = rng.randint(0, nd) if rng.random() < 0.9 else nd + 1
+        ent = []
+        for j in range(k):
+            n = shape[min(j, nd - 1)]
+            r = rng.random()
+            if r < 0.15:
+                ent.append(None)
+            elif r < 0.35:
+                ent.append(rng.randint(-n, n - 1) if rng.random() < 0.85 else rng.choice([-n - 1, n]))
+            else:
+                v = [None] + list(range(-n - 1, n + 2))
+                for _t in range(8 if rng.random() < 0.85 else 1):       # mostly supported selections, some refused ones
+                    e = (rng.choice(v), rng.choice(v), rng.choice([None, 1, 1, 2, 3, -1, -1, -2]))
+                    if supported(n, *e):
+                        break
+                ent.append(e)
+        for _e in range(rng.choice([0, 0, 1, 1, 1, 1, 1, 2])):
+            ent.insert(rng.randint(0, len(ent)), 'E')
+        out.append((shape, ent))
+    return out
+
+
+def nd_line(case):
+    shape, ent = case
+    toks = []
+    for e in ent:
+        if e == 'E':
+            toks.append('E')
+        elif e is None:
+            toks.append('N')
+        elif isinstance(e, int):
+            toks.append(f'i{e}')
+        else:
+            toks.append('s' + '/'.join(o(x) for x in e))
+    return 'slice sub ' + ','.join(map(str, shape)) + (' ' + ' '.join(toks) if toks else '')
+
+
+def nd_python(case):
+    """(verify_subscript in driver text form, flat offsets read through a NumpyArraySegment or None, numpy's flat offsets or None)"""
+    from sarpy.io.general.slice_parsing import verify_subscript
+    from sarpy.io.general.data_segment import NumpyArraySegment
+    shape, ent = case
+    sub = tuple(Ellipsis if e == 'E' else (slice(*e) if isinstance(e, tuple) else e) for e in ent)
+    arr = numpy.arange(int(numpy.prod(shape))).reshape(shape)
+    vs = pyrun(lambda: 'ok ' + ';'.join(ps(x) for x in verify_subscript(sub, tuple(shape))))
+    try:
+        seg = NumpyArraySegment(arr, mode='r')
+        got = seg.read(sub, squeeze=False)
+        rd = (list(got.shape), got.ravel().tolist())
+    except Exception:
+        rd = None
+    try:
+        # numpy drops integer axes and reads None as newaxis; offsets and order are the same with length-1 slices / full slices
+        def npe(e):
+            if e is None:
+                return slice(None)
+            if isinstance(e, int):
+                return slice(e, e + 1 if e != -1 else None)
+            return e
+        ints_ok = all(not isinstance(e, int) or -n_ok(shape, ent, i) <= e < n_ok(shape, ent, i) for i, e in enumerate(ent))
+        npv = arr[tuple(npe(e) for e in sub)] if ints_ok else None
+        npf = None if npv is None else (list(npv.shape), npv.ravel().tolist())
+    except Exception:
+        npf = None
+    return vs, rd, npf
+
+
+def all_supported(case):
+    """every slice entry is a selection sarpy documents as supported on its axis (non-empty, in range)"""
+    shape, ent = case
+    for i, e in enumerate(ent):
+        if isinstance(e, tuple):
+            if e[2] == 0 or not supported(n_ok(shape, ent, i), *e):
+                return False
+    return True
+
+
+def n_ok(shape, ent, i):
+    """axis length the i-th entry applies to (for integer range checks of the numpy reference); 1 if it cannot be placed"""
+    nd = len(shape)
+    items = [e for e in ent if e != 'E']
+    if ent.count('E') > 1 or len(items) > nd:
+        return 1
+    if 'E' in ent:
+        e_at = ent.index('E')
+        if i < e_at:
+            return shape[i]
+        return shape[nd - (len(ent) - i)]
+    return shape[i]
 
 
 # ---------------------------------------------------------------------------- kernel level
@@ -274,7 +377,7 @@ def rand_subscript(rng, shape):
     items = [rand_item(rng, shape[i]) for i in range(k)]
     sub = ['tuple'] + items
     if rng.random() < 0.2:
-        if k == nd:
+        if k == nd and rng.random() < 0.6:     # otherwise the ellipsis stands for no dimensions, which numpy accepts
             sub.pop(1 + rng.randrange(k))
             k -= 1
         sub.insert(1 + rng.randint(0, k), 'E')
@@ -503,7 +606,7 @@ def run(tier):
     gen_info = gen_slices.generate(os.path.join(VERIF, 'lean', 'SarpyModel', 'Gen', 'Slices.lean'))
     if gen_info['unsupported']:
         gen_info['note'] = 'translator could not express: ' + json.dumps(gen_info['unsupported'])
-    broken = chk.prove(['SarpyModel.Props.C01', 'SarpyModel.Drivers'], 'SarpyModel.Props.C01', 'Sarpy.Props.C01', REQUIRED, gen_info)
+    broken = chk.prove(['SarpyModel.Props.C01', 'SarpyModel.Props.C01Nd', 'SarpyModel.Drivers'], 'SarpyModel.Props.C01Nd', 'Sarpy.Props.C01', REQUIRED, gen_info)
 
     # ---- correspondence: kernels three-way (python / Gen / Spec) and numpy-spec validation
     disagreements = []
@@ -515,6 +618,8 @@ def run(tier):
         drv = Driver()
         idx = [drv.ask(kernel_line(c)) for c in cases]
         npq = np_validation(rng, tier, drv)
+        ndc = nd_cases(rng, tier)
+        ndq = [drv.ask(nd_line(c)) for c in ndc]
         ans = drv.run()
     except Infra as e:
         drv_ok = False
@@ -547,6 +652,29 @@ def run(tier):
         if np_bad:
             raise Infra(f'Spec.npIndices disagrees with numpy (spec bug, not a violation): {np_bad[:3]}')
         chk.coverage['numpy_spec_validated'] = len(npq)
+        nd_stats = {'accepted': 0, 'refused': 0, 'with_ellipsis': 0}
+        for c, i in zip(ndc, ndq):
+            evaluations += 1
+            vs, rd, npf = nd_python(c)
+            model = ans[i]
+            nd_stats['with_ellipsis'] += 'E' in c[1]
+            if model == 'refused':
+                nd_stats['refused'] += 1
+                if not vs.startswith('err'):
+                    disagreements.append({'case': c, 'python': vs, 'spec': model, 'tie': 'model (verify_subscript vs Spec.verifySub)'})
+                if npf is not None and npf[1] and c[1].count('E') <= 1 and len([e for e in c[1] if e != 'E']) <= len(c[0]) and all_supported(c):
+                    oracle_fail.append({'kind': 'nd', 'case': c, 'msg': f'verify_subscript refuses the in-range, non-empty subscript {nd_line(c)[10:]}'})
+                continue
+            nd_stats['accepted'] += 1
+            mvs, _, mflat = model.partition(' [')
+            mflat = [int(x) for x in mflat.rstrip(']').split(',')] if mflat.rstrip(']') else []
+            if vs != mvs:
+                disagreements.append({'case': c, 'python': vs, 'spec': mvs, 'tie': 'model (verify_subscript vs Spec.verifySub)'})
+            if npf is None or npf[1] != mflat:
+                raise Infra(f'Spec.readFlat disagrees with numpy (spec bug, not a violation): {c} {mflat[:8]} {npf}')
+            if rd is None or rd[1] != mflat:
+                oracle_fail.append({'kind': 'nd', 'case': c, 'msg': f'segment read of subscript {nd_line(c)[10:]} on shape {c[0]} returns {rd}, numpy selects offsets {mflat[:12]}'})
+        chk.coverage['nd_subscripts'] = nd_stats
     # kernel oracles on the implementation (always run: they are cheap and they are the search when something broke)
     for c in cases:
         m = kernel_oracle(c)
